@@ -25,13 +25,13 @@ def build(tier, seed):
     for p, root in gen_shapes.tabcons_cases(rng, 600 if thorough else 100):
         fams.append(("tabcons", p, root, None))
     # G-pad: a sample of the above embedded among many locals / constants
-    npad = 300 if thorough else 60
+    npad = 600 if thorough else 90
     for i in range(npad):
         if i % 2 == 0:
             p, root = gen_shapes.gen_assign(rng, 1)[-1] if False else gen_shapes.assign_case(*_rand_assign(rng))
         else:
             p, root = gen_shapes.gen_expr(rng, 1)[0]
-        p, root = gen_shapes.pad(p, root, rng.choice([20, 80, 120]), rng.choice([0, 300, 600]))
+        p, root = gen_shapes.pad(p, root, rng.choice([20, 80, 120]), rng.choice([0, 240, 250, 253, 254, 255, 256, 257, 300, 509, 510, 511, 512, 513, 600]))
         fams.append(("pad", p, root, None))
     progs = []
     for i, (fam, p, root, src) in enumerate(fams):
@@ -134,3 +134,7 @@ def replay(path):
     stats = {"states": 0, "transitions": 0}
     decide([p], "replay", verd, stats, {}, [])
     return verd.finish()
+
+
+def selftest():
+    return lsem.selftest(PROP, build("quick", vlib.seed())[:200])
